@@ -175,6 +175,23 @@ pub fn gen(tier: &str, seed: u64, out: &mut dyn FnMut(Value)) {
             out(json!({"op": "tpl_replace", "tpls": tpls, "rule": rule, "instances": instances, "tag": "replace: all strings of <=2 pieces + random", "nt": k > 0}));
         }
     }
+    // template sets without a single brace in them, whose texts are other templates' names, against placeholders nested in
+    // further braces: inserted text is never read again, whichever template is looked at first
+    {
+        let names = ["a", "b", "ab", "c"];
+        let texts = ["a", "b", "ab", "c", "X", ""];
+        let strings = ["{{{{a}}}}", "{{{{b}}}}", "{{{{a}}}}|{{{{b}}}}", "{{{{ab}}}}{{a}}", "{{re_{{a}}}}", "{{{{a}}}}{{{{c}}}}", "x{{{{{{a}}}}}}y", "{{ {{a}} }}", "{{{a}}}", "{{a}}{{b}}"];
+        for t0 in texts {
+            for t1 in texts {
+                for t2 in texts {
+                    let tpls = json!([[names[0], t0], [names[1], t1], [names[3], t2]]);
+                    let matches: Vec<Value> = strings.iter().enumerate().map(|(i, s)| json!([format!("$m{i}"), s])).collect();
+                    let rule = json!({"name": "r", "matches": matches});
+                    out(json!({"op": "tpl_replace", "tpls": tpls, "rule": rule, "instances": 24, "tag": "brace-free template sets, nested placeholders", "nt": true}));
+                }
+            }
+        }
+    }
     // the order-dependence witness and friends, always
     for (tpls, s) in [
         (json!([["a", "X{{b}}"], ["b", "Y"]]), "{{a}}{{b}}"),
